@@ -307,7 +307,11 @@ def _parse_iso8601_duration(text: str, **options: str) -> Duration | None:
         if "." in _weeks:
             _weeks, portion = _weeks.split(".")
             weeks = int(_weeks)
-            microseconds += _fraction_to_microseconds(portion, US_PER_WEEK)
+            # A fraction of a week is whole days plus a rest of less than a day,
+            # like the compiled parser reports it
+            days, microseconds = divmod(
+                _fraction_to_microseconds(portion, US_PER_WEEK), US_PER_DAY
+            )
         else:
             weeks = int(_weeks)
 
